@@ -671,6 +671,16 @@ class SimSession(env.WebsocketSession):
     _selector_cls = SimSelector
 
     def _wrap_socket(self, sock, host):
+        if isinstance(sock, SimTLS):
+            # ssl.SSLContext.wrap_socket() on an SSLSocket does not nest TLS: the new SSLSocket takes the file
+            # descriptor over and its ClientHello goes out as plain TCP payload, in the middle of the TLS session the
+            # peer (an https proxy) has with us.  The peer's TLS layer fails on it, our handshake fails with it.
+            w = current()
+            w.rec('tls_wrap_of_tls_socket', sock.sid, host)
+            if sock.conn is not None:
+                sock.conn.broken = True
+            import ssl as _ssl
+            raise _ssl.SSLError(1, '[SSL] record layer failure (TLS handshake written outside the TLS session with the proxy)')
         return SimTLS(current(), sock, host)
 
 
